@@ -1,9 +1,12 @@
 package props
 
 import (
+	"context"
 	"fmt"
 	"math"
 	"strings"
+	"sync/atomic"
+	"time"
 
 	eval "github.com/onheap/eval"
 
@@ -84,7 +87,17 @@ func tryEvalCheck(r *rep.Run, kleene bool) {
 		if k > 6 {
 			return // (only some of the hand-made wide programs; every enumerated tree has <= 6 variables)
 		}
-		cs := compileAll(r, h, p, opts)
+		popts := opts
+		if p.Size <= 5 {
+			// small programs also under Debug and under both event options
+			popts = append(append([]drive.Opt{}, opts...), optMatrix(2)...)
+			for _, b := range []int{0, 15} {
+				o := drive.FromBits(b)
+				o.Events = 3
+				popts = append(popts, o)
+			}
+		}
+		cs := compileAll(r, h, p, popts)
 		// per-variable domains: the two typed values, a non-canonical Go int
 		// for integers (a fetcher may hand back exactly what the caller
 		// stored), and in the thorough tier one ill-typed value; available
@@ -376,6 +389,7 @@ func tryEvalCheck(r *rep.Run, kleene bool) {
 	r.Cov["programs_completed"] = done
 	tryEvalLateVariable(r)
 	tryEvalDottedNames(r)
+	tryEvalCallerContext(r)
 	if !kleene {
 		tryEvalUserOperators(r)
 		tryEvalValues(r)
@@ -839,5 +853,85 @@ func tryEvalDottedNames(r *rep.Run) {
 		}
 	}
 	r.Cov["dotted_name_runs"] = runs
+	r.Add(0, runs, runs, runs, 0)
+}
+
+// tryEvalCallerContext: Ctx.Ctx is the CALLER's request-scoped data, handed
+// through to fetchers and operators; the engine's answers do not depend on it.
+// Every CORE/RICH program of at most 4 nodes x optimisations off / all on x
+// every availability split x every binding: TryEval and Eval under a nil, a
+// live, a cancelled and an expired context.Context give one and the same
+// outcome.
+func tryEvalCallerContext(r *rep.Run) {
+	progs, _ := corpus(4, 4)
+	hs := harnesses(r.Workers)
+	cancelled, cancel := context.WithCancel(context.Background())
+	cancel()
+	expired, cancel2 := context.WithDeadline(context.Background(), time.Unix(1, 0))
+	defer cancel2()
+	live, cancel3 := context.WithCancel(context.WithValue(context.Background(), struct{ k string }{"request"}, 7))
+	defer cancel3()
+	ctxs := []context.Context{nil, live, cancelled, expired}
+	names := []string{"nil", "live", "cancelled", "expired"}
+	var runs int64
+	r.ParallelFor(len(progs), func(w, i int) {
+		p := progs[i]
+		if len(p.Vars) > 4 {
+			return
+		}
+		h := hs[w]
+		r.Note(w, p.Src)
+		cs := compileAll(r, h, p, []drive.Opt{{}, {CF: true, RN: true, FE: true, RO: true}})
+		k := len(p.Vars)
+		vals := make([]interface{}, k)
+		drive.ForBindings(Doms(p.Vars, false), vals, func() bool {
+			for ci := range cs {
+				c := &cs[ci]
+				copy(c.f.Vals, vals)
+				for mask := 0; mask < 1<<k; mask++ {
+					avail := make([]bool, k)
+					for v := range avail {
+						avail[v] = mask&(1<<v) != 0
+					}
+					var base [2]drive.Out
+					for xi, cx := range ctxs {
+						for mode := 0; mode < 2; mode++ {
+							if mode == 0 && mask != 1<<k-1 {
+								continue // Eval needs every variable
+							}
+							c.f.Avail = avail
+							if mode == 0 {
+								c.f.Avail = nil
+							}
+							h.Reset()
+							var v eval.Value
+							var err error
+							pn, site := drive.Fence(func() {
+								ctx := &eval.Ctx{VariableFetcher: c.f, Ctx: cx}
+								if mode == 0 {
+									v, err = c.e.Eval(ctx)
+								} else {
+									v, err = c.e.TryEval(ctx)
+								}
+							})
+							atomic.AddInt64(&runs, 1)
+							got := drive.Out{Val: v, Err: err, Panic: pn, Site: site}
+							if xi == 0 {
+								base[mode] = got
+								continue
+							}
+							if !drive.SameOutcome(got, base[mode]) || (got.Err == nil && isDNE(got.Val) != isDNE(base[mode].Val)) {
+								r.Violate("caller-context", p.Src+c.o.String()+names[xi], sprintf("%s with a %s context.Context in Ctx.Ctx gives %s, with none it gives %s", []string{"Eval", "TryEval"}[mode], names[xi], got, base[mode]),
+									caseDesc(p.Src, c.o, p.Vars, vals, avail, nil))
+							}
+						}
+					}
+					c.f.Avail = nil
+				}
+			}
+			return true
+		})
+	})
+	r.Cov["caller_context_runs"] = runs
 	r.Add(0, runs, runs, runs, 0)
 }
